@@ -160,6 +160,8 @@ func TestVerifC01(t *testing.T) {
 		}
 
 		payloads := c01Payloads(rng)
+		var live *vStore
+		var liveSigs [][]byte
 		var prevEnv []byte
 		var prevHeaders *protocoltypes.MessageHeaders
 		var prevEnvMsg *protocoltypes.MessageEnvelope
@@ -305,6 +307,34 @@ func TestVerifC01(t *testing.T) {
 					c01Judge(rep, classOf(m.id), kind, res, p, sDev, headers.Counter, map[string]interface{}{"group": kind, "payload_len": len(p), "manipulation": m.id, "attempt": att})
 				}
 				rep.Distinct(fmt.Sprintf("%s/%d/%s", kind, pi, m.id))
+			}
+
+			// a receiver INSTANCE that stays alive through the whole session (whatever it remembers in memory about earlier
+			// messages stays with it): before it sees the honest message, the insider presents forgeries for this counter
+			// that carry the signatures of messages this very instance has already verified
+			if live == nil {
+				live = w.rs[0].clone()
+			}
+			for li, sig := range liveSigs {
+				f := reboxHeaders(g, &protocoltypes.MessageHeaders{Counter: chainCounter, DevicePk: sDev, Sig: sig}, forgedBox)
+				var res openResult
+				if pnc, stack := verifkit.Try(func() { res = live.openEnv(ctx, g, f, cidOf(f)) }); pnc != nil {
+					rep.Violate("C01/panic/"+kind, fmt.Sprintf("opening a manipulated envelope panicked: %v", pnc), map[string]interface{}{"manipulation": "insider/live-instance", "stack": stack})
+					break
+				}
+				rep.Eval(1)
+				c01Judge(rep, "insider", kind, res, p, sDev, headers.Counter, map[string]interface{}{"group": kind, "payload_len": len(p),
+					"manipulation": fmt.Sprintf("insider/sig-of-message-%d-already-verified-by-this-instance", li+1)})
+				rep.Distinct(fmt.Sprintf("%s/%d/insider-live/%d", kind, pi, li))
+			}
+			{
+				res := live.openEnv(ctx, g, data, id)
+				if res.err != nil || !sameBytes(res.payload, p) {
+					rep.Violate("C01/honest-open-fails-after-forgeries/"+kind, fmt.Sprintf("a long-lived receiver instance cannot open the honest message after forgeries for its counter were refused: %v", res.err), pi)
+				}
+				if len(liveSigs) < 4 {
+					liveSigs = append(liveSigs, headers.Sig)
+				}
 			}
 
 			// cross-group presentation: the honest envelope shown to the same receiver as belonging to another group
